@@ -91,6 +91,9 @@ def _strategy(tier, var):
         # the precision of the registered arrays is independent of the IO object's real_dtype (a single-precision flow
         # simulation stores double-precision PyElastica data through the same IO classes)
         c["array_dtype"] = draw(st.sampled_from([dtype, dtype, "float32" if dtype == "float64" else "float64"]))
+        # file histories: the same file NAME is written again (same registry with new contents, or a reduced registry)
+        c["overwrite"] = draw(st.sampled_from(["none", "same_registry", "same_registry", "reduced_registry"]))
+        c["overwrite_pick"] = draw(st.integers(0, 50))
         c["reject"] = draw(st.sampled_from(["delete_dataset", "origin", "dx", "grid_size"]))
         c["reject_pick"] = draw(st.integers(0, 50))
         c["perturb"] = draw(gen.floats(1e-3, 0.5, 32))
@@ -294,6 +297,9 @@ def _body(case, ctx):
             for g2, g1 in zip(reg2["lag"], reg["lag"]):
                 if not _same_bits(g2["grid"], g1["grid"]) or any(not _same_bits(v, g1["fields"][k]) for k, v in g2["fields"].items()):
                     raise Violation("second save/load with the same IO objects: a Lagrangian grid/field holds stale data")
+        # (ii-c) file histories: save() into a file NAME that already exists (rolling checkpoints, stale files of an earlier run)
+        if cls == "IO" and (reg["eul"] or reg["lag"]) and case.get("overwrite", "none") != "none":
+            _overwrite_existing_file(case, ctx, tmp, io, reg)
         # (iv) rejection
         _rejection(case, ctx, fname, tmp, gnames)
     finally:
@@ -310,6 +316,73 @@ def _body(case, ctx):
     if case["lag"] and not any(g["fields"] for g in case["lag"]):
         labels.append("grids_without_fields")
     ctx.note(nontrivial=has_special and has_vec, labels=labels)
+
+
+def _overwrite_existing_file(case, ctx, tmp, io, reg):
+    """io/reg: the writer of this case (its sources currently hold contents that differ from the first save)."""
+    path = os.path.join(tmp, "latest.h5")
+    # 1. an earlier save under this name: different contents (all sources negated/offset), different time
+    c_old = dict(case)
+    io_old, reg_old = _build(c_old, fresh=False)
+    with ctx.repo_call("first save under the re-used file name"):
+        io_old.save(h5_file_name=path, time=123.25)
+    if case["overwrite"] == "same_registry":
+        t_new = 7.5
+        with ctx.repo_call("save() into an existing file (same registry)"):
+            io.save(h5_file_name=path, time=t_new)
+        io_r, reg_r = _build(case, fresh=True)
+        with ctx.repo_call("load of the overwritten file"):
+            t_r = io_r.load(h5_file_name=path)
+        if float(t_r) != t_new:
+            raise Violation(f"file written twice under the same name: load returned time {t_r!r}, the last save stored {t_new!r}")
+        for k, v in reg_r["eul"].items():
+            if not _same_bits(v, reg["eul"][k]):
+                raise Violation(f"save() into an existing file: Eulerian field '{k}' reloads with the contents of the EARLIER save "
+                                "(or other stale data), not those of the last save")
+        for g2, g1 in zip(reg_r["lag"], reg["lag"]):
+            if not _same_bits(g2["grid"], g1["grid"]) or any(not _same_bits(v, g1["fields"][k]) for k, v in g2["fields"].items()):
+                raise Violation("save() into an existing file: a Lagrangian grid/field reloads with the contents of the EARLIER save, "
+                                "not those of the last save")
+        ctx.note(labels=["overwrote_existing_file_same_registry"])
+        return
+    # 2. reduced registry: the last writer registers one field (or grid) less; a reader that still registers it must be refused
+    c_red = dict(case)
+    c_red["eul"] = list(case["eul"])
+    c_red["lag"] = [dict(g, fields=list(g["fields"])) for g in case["lag"]]
+    victims = [("eul", i, None) for i in range(len(c_red["eul"]))]
+    victims += [("lagf", gi, fi) for gi, g in enumerate(c_red["lag"]) for fi in range(len(g["fields"]))]
+    if c_red["lag"] and c_red["lag"][-1]["name"] is not None or len(c_red["lag"]) >= 1:
+        victims.append(("grid", len(c_red["lag"]) - 1, None))  # dropping the LAST grid keeps the default names of the others
+    if not victims:
+        return
+    kind, a, b = victims[case.get("overwrite_pick", 0) % len(victims)]
+    if kind == "eul":
+        if len(c_red["eul"]) == 1 and not c_red["lag"]:
+            return
+        del c_red["eul"][a]
+    elif kind == "lagf":
+        del c_red["lag"][a]["fields"][b]
+    else:
+        if len(c_red["lag"]) == 1 and not c_red["eul"]:
+            return
+        del c_red["lag"][a]
+    io_red, reg_red = _build(c_red, fresh=False)
+    with ctx.repo_call("save() into an existing file (reduced registry)"):
+        io_red.save(h5_file_name=path, time=9.0)
+    io_r, reg_r = _build(c_red, fresh=True)
+    with ctx.repo_call("load of the overwritten file (reduced registry)"):
+        io_r.load(h5_file_name=path)
+    for k, v in reg_r["eul"].items():
+        if not _same_bits(v, reg_red["eul"][k]):
+            raise Violation(f"save() into an existing file (reduced registry): Eulerian field '{k}' not restored")
+    io_full, _ = _build(case, fresh=True)
+    try:
+        io_full.load(h5_file_name=path)
+    except Exception:  # noqa: BLE001 - any error is a rejection
+        ctx.note(labels=["overwrote_existing_file_reduced_registry_rejected"])
+        return
+    raise Violation(f"the last save() under this file name did not contain the registered {kind} #{a}{'' if b is None else '/' + str(b)}, "
+                    "yet load() returned normally (data of an EARLIER save under the same name survived)")
 
 
 def _rejection(case, ctx, fname, tmp, gnames):
